@@ -67,6 +67,7 @@ PROPS = {
         jobs=[
             job("exhaustive", "^TestExhaustive", (4, 16), (1, 1), (300, 3000)),
             job("generated", "^Test(GrammarMutation|Truncations|RepoCorpus)$", (2, 16), (1500, 40000), (300, 3000)),
+            job("deep-nesting", "^TestDeepNesting$", (1, 2), (150, 3000), (300, 3000)),
             job("fuzz", "", (0, 0), (0, 0), (0, 0), fuzz="FuzzJSONCheck", fuzztime=120, tiers=("thorough",)),
         ],
     ),
